@@ -27,6 +27,7 @@ fn main() {
 		std::process::exit(2);
 	}
 	runner::install_panic_hook();
+	runner::init_logging();
 	let code = match args[1].as_str() {
 		"list" => {
 			for p in props::all() {
@@ -99,6 +100,11 @@ fn replay(id: &str, path: &Path) -> i32 {
 		},
 		Err(f) => {
 			println!("replay failed: {} -- {}", f.sig, f.detail);
+			if let Some(c) = &f.case_override {
+				if let Some(o) = c.get("only") {
+					println!("narrowed to: {}", o);
+				}
+			}
 			println!("VIOLATION property={} replay={}", id, path.display());
 			1
 		},
